@@ -309,7 +309,8 @@ def run(prog):
         from kq.analysis import discr_switches
         okc = False
         for sw in discr_switches(prog, f4):
-            if not (sw.adt or "").endswith("::Visit") or "InProgress" not in sw.arms:
+            # the visit-state enum of the walk (named Visit on the reviewed tree): an enum of the parser with an InProgress variant
+            if not (sw.adt or "").startswith("kanata_parser::") or "InProgress" not in sw.arms:
                 continue
             tgt = sw.arms["InProgress"]
             others = [b for v, b in sw.arms.items() if v != "InProgress"] + ([sw.otherwise] if sw.otherwise is not None else [])
